@@ -6,6 +6,42 @@ HERE = os.path.dirname(os.path.dirname(os.path.abspath(__file__)))
 
 # property id -> (technique, level text, level note, design ref)
 CLAIMED = {
+    "C05": (
+        "proptest-driven builder scenarios + independent per-asset preservation-of-value oracle on the emitted bytes",
+        "Generated builder scenarios (tape-decoded parameters, keyring, UTxO universe the scenario owns, operation sequence through every public route incl. certificates, withdrawals, mint/burn, votes, proposals, collateral, fee requests, the 7 balancing routes) are applied to the real TransactionBuilder; the emitted transaction is parsed by the engine's own CBOR reader and judged by the engine's ledger oracle, which never asks the library for a sum, size, deposit, fee or hash. For every transaction produced (build_tx, build, build_tx_unsafe) after a balancing call reported success, inputs + withdrawals + refunds + mint = outputs + fee + deposits + burn + donation must hold exactly for lovelace and every asset, with UTxO values taken from the scenario's own map.",
+        "Trusts the engine's ledger oracle (ledger.rs: Conway deposit table, witsVKeyNeeded, fee formula, language views, pointer rules) and cryptoxide's blake2b / Ed25519 for real signatures; scenario preconditions are listed in the evidence assumptions.",
+        "DESIGN.md \u00a75 C05",
+    ),
+    "C06": (
+        "proptest-driven builder scenarios + ledger minimum-fee oracle on the really signed transaction",
+        "Generated builder scenarios (tape-decoded parameters, keyring, UTxO universe the scenario owns, operation sequence through every public route incl. certificates, withdrawals, mint/burn, votes, proposals, collateral, fee requests, the 7 balancing routes) are applied to the real TransactionBuilder; the emitted transaction is parsed by the engine's own CBOR reader and judged by the engine's ledger oracle, which never asks the library for a sum, size, deposit, fee or hash. The built fee must be at least the ledger minimum (linear fee of the size after adding real vkey / bootstrap witnesses for the ledger's required signer set, plus exact ex-unit cost, plus tiered reference-script fee); set_fee must be used exactly and set_min_fee honoured as a lower bound.",
+        "Trusts the engine's ledger oracle (ledger.rs: Conway deposit table, witsVKeyNeeded, fee formula, language views, pointer rules) and cryptoxide's blake2b / Ed25519 for real signatures; scenario preconditions are listed in the evidence assumptions.",
+        "DESIGN.md \u00a75 C06",
+    ),
+    "C09": (
+        "proptest-driven builder scenarios + recomputation of script-integrity and auxiliary-data hashes from the emitted bytes",
+        "Generated builder scenarios (tape-decoded parameters, keyring, UTxO universe the scenario owns, operation sequence through every public route incl. certificates, withdrawals, mint/burn, votes, proposals, collateral, fee requests, the 7 balancing routes) are applied to the real TransactionBuilder; the emitted transaction is parsed by the engine's own CBOR reader and judged by the engine's ledger oracle, which never asks the library for a sum, size, deposit, fee or hash. Body key 11 must equal blake2b256(redeemer bytes | datum bytes | language views of the languages in use) recomputed from the emitted witness set with the engine's own language-view encoder, and body key 7 must equal blake2b256 of the attached auxiliary-data bytes.",
+        "Trusts the engine's ledger oracle (ledger.rs: Conway deposit table, witsVKeyNeeded, fee formula, language views, pointer rules) and cryptoxide's blake2b / Ed25519 for real signatures; scenario preconditions are listed in the evidence assumptions.",
+        "DESIGN.md \u00a75 C09",
+    ),
+    "C10": (
+        "proptest-driven builder scenarios with marker-carrying redeemers + ledger pointer resolution on the emitted body",
+        "Generated builder scenarios (tape-decoded parameters, keyring, UTxO universe the scenario owns, operation sequence through every public route incl. certificates, withdrawals, mint/burn, votes, proposals, collateral, fee requests, the 7 balancing routes) are applied to the real TransactionBuilder; the emitted transaction is parsed by the engine's own CBOR reader and judged by the engine's ledger oracle, which never asks the library for a sum, size, deposit, fee or hash. Every redeemer carries a unique integer naming the item it was attached to; its (tag, index) is resolved against the built body under the ledger's pointer rules and must designate exactly that item, with pairwise distinct pointers.",
+        "Trusts the engine's ledger oracle (ledger.rs: Conway deposit table, witsVKeyNeeded, fee formula, language views, pointer rules) and cryptoxide's blake2b / Ed25519 for real signatures; scenario preconditions are listed in the evidence assumptions.",
+        "DESIGN.md \u00a75 C10",
+    ),
+    "C16": (
+        "proptest-driven insertion histories against an insertion-ordered-set model, canonical-order checks on emitted asset maps, repeated builds of generated builder scenarios",
+        "Generated histories with repeats enter every set-like type by add, from_bytes (tagged / untagged arrays repeating elements) and from_json; the emitted array must hold distinct elements in first-insertion order, len() and add's return value must follow the model; witness-set setters must emit repeated scripts / datums once; asset and mint maps must be canonically ordered at both levels; generated builder scenarios are built repeatedly (same object, clones) and must give byte-identical transactions.",
+        "Element equality is byte equality of the canonical encoding; hasher-state dependence is sampled by repeated builds within one process.",
+        "DESIGN.md \u00a75 C16",
+    ),
+    "C18": (
+        "proptest-driven builder scenarios + witness-completeness and exact-size oracle on the emitted transaction",
+        "Generated builder scenarios (tape-decoded parameters, keyring, UTxO universe the scenario owns, operation sequence through every public route incl. certificates, withdrawals, mint/burn, votes, proposals, collateral, fee requests, the 7 balancing routes) are applied to the real TransactionBuilder; the emitted transaction is parsed by the engine's own CBOR reader and judged by the engine's ledger oracle, which never asks the library for a sum, size, deposit, fee or hash. Each script item must have its script exactly once (witness set by hash, or its reference input in body key 18), Plutus items exactly one redeemer and their witness datum once, nothing superfluous; with S the byte length of the transaction really signed by exactly the ledger's required set, S <= full_size() < S + 101.",
+        "Trusts the engine's ledger oracle (ledger.rs: Conway deposit table, witsVKeyNeeded, fee formula, language views, pointer rules) and cryptoxide's blake2b / Ed25519 for real signatures; scenario preconditions are listed in the evidence assumptions.",
+        "DESIGN.md \u00a75 C18",
+    ),
     "C01": (
         "proptest-driven tape generation of typed values + bounded-exhaustive presence-mask / variant sweeps, round-trip oracle",
         "Generated-input search over ~140 public types: each generated value is encoded, checked for well-formedness by an independent CBOR reader, decoded, compared (library equality with empty optional collections counted as absent), re-encoded (byte equality) and passed through the hex entry points in both letter cases. All 2^18 presence masks of TransactionBody, the low/high-weight masks of ProtocolParamUpdate and all short boundary tapes of every certificate / governance action / relay / native script variant are enumerated. Exploration is the right level: the space is unbounded and the oracle is a cheap executable round trip.",
